@@ -39,9 +39,12 @@ def gen_machine(rnd):
         N, M = procs[p]["N"], procs[p]["M"]
         prog = []
         pad = lambda: ["nop"] * rnd.randint(3, 5)   # well spaced (C04): at least two instructions between handshakes on one port
+        inregs = rnd.sample(range(4), N)           # the register an input is read into is not tied to the input's number
+        tight = rnd.random() < 0.5                 # handshakes on different ports may follow each other directly
         for k in range(N):
-            prog.append("i2rw r%d i%d" % (k, k))
-            prog += pad()
+            prog.append("i2rw r%d i%d" % (inregs[k], k))
+            if not tight or k == N - 1:
+                prog += pad()
         for _ in range(rnd.randint(0, 3)):
             a, b = rnd.randrange(4), rnd.randrange(max(N, 1))
             prog.append(rnd.choice(["add r%d r%d" % (a, b), "inc r%d" % a, "cpy r%d r%d" % (a, b), "xor r%d r%d" % (a, b)]))
@@ -54,6 +57,12 @@ def gen_machine(rnd):
         ops = sorted(set(l.split()[0] for l in prog) | {"nop", "j"})
         specs.append({"arch": {"R": 2, "N": N, "M": M, "L": 0, "O": O, "ops": ops, "mode": "ha", "rsize": rsize}, "prog": prog})
     spec = {"rsize": rsize, "procs": specs, "inputs": ext_in, "outputs": ext_out, "bonds": bonds}
+    if nproc > 1 and rnd.random() < 0.5:
+        # the domains are stored in another order than the processors that run them
+        perm = list(range(nproc))
+        rnd.shuffle(perm)                          # domain slot d holds the program of processor perm[d]
+        spec["procs"] = [specs[perm[d]] for d in range(nproc)]
+        spec["procorder"] = [perm.index(p) for p in range(nproc)]
     streams = [[rnd.randrange(1, 1 << rsize) for _ in range(rnd.randint(3, 5))] for _ in range(ext_in)]
     return spec, streams
 
@@ -198,7 +207,9 @@ def check_netlist(text, spec):
     recv_of = {}   # producer endpoint -> set of consumer received nets
     insts = dict((int(m.group(1)), [x.strip() for x in m.group(2).split(",")]) for m in re.finditer(r"\ba(\d+)\s+a\d+_inst\s*\(([^;]*?)\)\s*;", text, re.S))
     assigns = dict((m.group(1).strip(), m.group(2).strip()) for m in re.finditer(r"assign\s+([\w\[\]:]+)\s*=\s*([^;]+);", text))
-    for p, pr in enumerate(spec["procs"]):
+    order = spec.get("procorder") or list(range(len(spec["procs"])))
+    for p in range(len(order)):
+        pr = spec["procs"][order[p]]
         if p not in insts:
             return "processor %d is not instantiated" % p
         args = insts[p][2:]
